@@ -300,6 +300,45 @@ pub fn forward<N: Num>(net: &Net, shapes: &[LShape], params: &[P<N>], x: &[N], s
     Trace { layers, activated, min_kink: w.min_kink, min_gap: w.min_gap, max_sat: w.max_sat }
 }
 
+/// The other reading of a loop connection when two of them overlap: an iteration of the outer loop re-applies layers
+/// a..b *with* the loop connections that lie inside them (the `forward` above re-applies the plain layers, which is
+/// what the statement describes for a single loop). Networks without skip connections only; returns the output.
+pub fn forward_nested_loops<N: Num>(net: &Net, shapes: &[LShape], params: &[P<N>], x: &[N]) -> Vec<N> {
+    assert!(net.connects.is_empty(), "reference (nested loops): no skip connections");
+    fn segment<N: Num>(net: &Net, shapes: &[LShape], params: &[P<N>], a: usize, b: usize, input: Vec<N>, current: Option<usize>, main_entry: &mut Vec<Option<Vec<N>>>, top: bool, w: &mut Watch) -> Vec<N> {
+        let mut cur = input;
+        let mut entry: Vec<Option<Vec<N>>> = vec![None; net.layers.len()];
+        for j in a..=b {
+            entry[j] = Some(cur.clone());
+            if top {
+                main_entry[j] = Some(cur.clone());
+            }
+            cur = apply(&net.layers[j], &shapes[j], &params[j], &cur, w).post;
+            if let Some((_, into, iters, inskips)) = net.loopbacks.iter().find(|(o, _, _, _)| *o == j) {
+                if current == Some(j) {
+                    continue;
+                }
+                let orig: Vec<N> = entry[*into].clone().or_else(|| main_entry[*into].clone()).expect("reference (nested loops): entry value");
+                let mut ys: Vec<Vec<N>> = vec![cur.clone()];
+                for _ in 0..*iters {
+                    let mut c = ys.last().unwrap().clone();
+                    if *inskips {
+                        c = comb(Acc::Add, &c, &[&orig]);
+                    }
+                    c = segment(net, shapes, params, *into, j, c, Some(j), main_entry, false, w);
+                    ys.push(c);
+                }
+                let refs: Vec<&[N]> = ys[1..].iter().map(|v| v.as_slice()).collect();
+                cur = comb(net.loopacc, &ys[0], &refs);
+            }
+        }
+        cur
+    }
+    let mut w = Watch { min_kink: f64::INFINITY, min_gap: f64::INFINITY, max_sat: 0.0 };
+    let mut main_entry: Vec<Option<Vec<N>>> = vec![None; net.layers.len()];
+    segment(net, shapes, params, 0, net.layers.len() - 1, x.to_vec(), None, &mut main_entry, true, &mut w)
+}
+
 pub fn to_f64(p: &[P<f32>]) -> Vec<P<f64>> {
     p.iter().map(|x| x.map(&|v| v as f64)).collect()
 }
